@@ -25,6 +25,7 @@ use crate::xtrace::XTrace;
 use crate::xtrace::print;
 use crate::xtrace::trace_fields;
 use either::Either;
+use futures_util::FutureExt as _;
 use futures_util::future::{Either as SelectResult, select};
 use std::ops::ControlFlow::{Break, Continue};
 use std::pin::pin;
@@ -124,7 +125,12 @@ pub async fn execute_builtin<S: Runtime + 'static>(
             // These futures live only in this inner scope so that the borrow
             // of `caught` and `env` ends before they are used again below.
             match select(builtin_fut, sigint_fut).await {
-                SelectResult::Left((result, _sigint_fut)) => Some(result),
+                SelectResult::Left((result, sigint_fut)) => {
+                    // Signals caught while the built-in was finishing may not
+                    // have been collected yet. Poll once more to pick them up.
+                    sigint_fut.now_or_never();
+                    Some(result)
+                }
                 SelectResult::Right(((), _builtin_fut)) => None,
             }
         };
